@@ -301,7 +301,7 @@ class FeArray(np.ndarray):
     @lru_cache(maxsize=16)
     def _dot_subscript(ndim1: int, ndim2: int) -> str:
         """Build and cache the einsum subscript for dot(ndim1, ndim2)."""
-        _idx = {0: "", 1: "i", 2: "ij", 4: "ijkl"}
+        _idx = {0: "", 1: "i", 2: "ij", 3: "ijk", 4: "ijkl"}
         idx1 = _idx[ndim1]
         idx2 = "".join(chr(ord(v) + ndim1 - 1) for v in _idx[ndim2])
         end = (idx1 + idx2).replace(idx1[-1], "")
@@ -311,7 +311,7 @@ class FeArray(np.ndarray):
     @lru_cache(maxsize=16)
     def _ddot_subscript(ndim1: int, ndim2: int) -> str:
         """Build and cache the einsum subscript for ddot(ndim1, ndim2)."""
-        _idx = {0: "", 1: "i", 2: "ij", 4: "ijkl"}
+        _idx = {0: "", 1: "i", 2: "ij", 3: "ijk", 4: "ijkl"}
         idx1 = _idx[ndim1]
         idx2 = "".join(chr(ord(v) + ndim1 - 2) for v in _idx[ndim2])
         end = (idx1 + idx2).replace(idx1[-1], "").replace(idx1[-2], "")
